@@ -1020,8 +1020,8 @@ class CSA:
                     if pending_ops:
                         # an early exit taken while values of enclosing expressions are still on the stack: they are
                         # abandoned (one slot leaks per iteration).  Reported here; the edge is not propagated further.
-                        s1.viol('O6-operands', '`%s` reachable in operand position: values of enclosing expressions (or the loop\'s own seed, inside the '
-                                'loop condition) are still on the stack at the jump and are never popped' % word)
+                        s1.viol('O6-operands', '`%s` in operand position: values of enclosing expressions (or the loop seed, inside the loop condition) '
+                                'are still on the stack at the jump and are never popped' % word)
                     elif kind == 'break':
                         pid = -s1.next_pos
                         s1.next_pos += 1
